@@ -338,6 +338,21 @@ func ruleTypeAsserts(c *Ctx, r *Report, rule string, reach map[*ssa.Function]boo
 			pos := c.pos(ta.Pos())
 			facts := splitFacts(c.factsAt(body, ta))
 			inner, _ := stripParens(ta.X).(*ast.CallExpr)
+			// X.(T) under a dominating type test of the same X: isString(x) … x.(string)
+			if pred := predFor[tname]; pred != "" {
+				same := false
+				for _, ft := range facts {
+					if call, isC := stripParens(ft.Cond).(*ast.CallExpr); isC && ft.Pos && c.calleeName(call) == pred && len(call.Args) == 1 {
+						if _, isCall := stripParens(ta.X).(*ast.CallExpr); !isCall && c.sameExpr(call.Args[0], ta.X) {
+							same = true
+						}
+					}
+				}
+				if same {
+					r.ok(rule, key, fmt.Sprintf("%s(x) holds where x.(%s) is asserted", pred, tname))
+					return true
+				}
+			}
 			switch {
 			case inner != nil && vm != nil && vm.callRole(c, inner) == "pop":
 				// which pop of the statement is it? (left to right)
@@ -914,7 +929,14 @@ func (c *Ctx) indexNeed(body ast.Node, pm map[ast.Node]ast.Node, at ast.Node, v 
 		return k + extra, fmt.Sprintf("constant index %d", k), true
 	}
 	isLenV := func(e ast.Expr) bool {
-		call, ok := stripParens(e).(*ast.CallExpr)
+		e = stripParens(e)
+		if id, ok := e.(*ast.Ident); ok {
+			// n := len(x), defined once and x not reassigned in between is the callers' concern (lenGuard checks it)
+			if def, k := c.singleDef(body, c.objOf(id)); k == 1 && def != nil {
+				e = stripParens(def)
+			}
+		}
+		call, ok := e.(*ast.CallExpr)
 		return ok && c.calleeName(call) == "len" && len(call.Args) == 1 && c.isObj(call.Args[0], v)
 	}
 	if isLenV(ix) && isSlice {
@@ -990,7 +1012,13 @@ func (c *Ctx) lenGuard(body ast.Node, at ast.Node, v *types.Var, need int64) str
 		if !ok {
 			continue
 		}
-		call, isCall := stripParens(b.X).(*ast.CallExpr)
+		bx := stripParens(b.X)
+		if id, ok := bx.(*ast.Ident); ok {
+			if def, k := c.singleDef(body, c.objOf(id)); k == 1 && def != nil {
+				bx = stripParens(def)
+			}
+		}
+		call, isCall := bx.(*ast.CallExpr)
 		if !isCall || c.calleeName(call) != "len" || len(call.Args) != 1 || !c.isObj(call.Args[0], v) {
 			continue
 		}
